@@ -817,7 +817,42 @@ func isCBORMode(t types.Type) bool {
 // load evaluates *addr at instruction `at`.
 func (e *termEngine) load(addr ssa.Value, at ssa.Instruction) *Term {
 	root, path := e.addrPath(addr)
+	wild := false
+	for _, p := range path {
+		if p == "[*]" {
+			wild = true
+		}
+	}
+	if wild {
+		// an element at a computed index: keep the index term when nothing in
+		// this function writes the memory below the root (otherwise fall back
+		// to the wildcard location, which store forwarding understands)
+		m := e.model(at.Parent())
+		written := false
+		for _, w := range m.writes[e.rootKey(root)] {
+			if pathOverlap(w.path, path) {
+				written = true
+			}
+		}
+		if !written {
+			return &Term{Op: "load", Args: []*Term{e.preciseAddr(addr)}}
+		}
+	}
 	return e.loadPath(root, path, at)
+}
+
+// preciseAddr: the address term with the actual index terms.
+func (e *termEngine) preciseAddr(addr ssa.Value) *Term {
+	switch a := addr.(type) {
+	case *ssa.FieldAddr:
+		st := deref(a.X.Type()).Underlying().(*types.Struct)
+		return &Term{Op: "field", S: st.Field(a.Field).Name(), Args: []*Term{e.preciseAddr(a.X)}}
+	case *ssa.IndexAddr:
+		return &Term{Op: "index", Args: []*Term{e.preciseAddr(a.X), e.of(a.Index)}}
+	case *ssa.ChangeType:
+		return e.preciseAddr(a.X)
+	}
+	return e.of(addr)
 }
 
 func (e *termEngine) symbolicLoc(root ssa.Value, path []string) *Term {
